@@ -97,6 +97,7 @@ class World:
         self.log = []
         self.quiet_gone = False
         self.partial_left = 0
+        self.signals_ok = False
 
     def arm(self, site, err):
         self.armed, self.site, self.err, self.calls = True, site, err, 0
@@ -421,7 +422,14 @@ class OsProxy:
 
     def kill(self, pid, sig):
         if sig != 0:
-            raise AssertionError("stub world: signal %r to %r" % (sig, pid))
+            # a real signal: only ever to the stub world's own process (recorded, never delivered)
+            if pid != W.pid or not getattr(W, "signals_ok", False):
+                raise AssertionError("stub world: signal %r to %r" % (sig, pid))
+            W.log.append("kill:%d" % sig)
+            if W.state == "gone" or (W.state == "zombie" and PLAT == "openbsd"):
+                # OpenBSD's kill(2) answers ESRCH for a zombie; the others accept the signal
+                raise ProcessLookupError(_errno.ESRCH, os.strerror(_errno.ESRCH))
+            return
         ok = W.present(pid) if pid == W.pid else W.listed(pid)
         if not ok:
             raise ProcessLookupError(_errno.ESRCH, os.strerror(_errno.ESRCH))
@@ -506,6 +514,7 @@ def install(cfg):
         if PLAT == "aix":       # terminal() walks /dev of the host: give it a quiet one
             mod.glob = types.SimpleNamespace(glob=lambda pat, **kw: ["/dev/null", "/dev/zero"])
         sys.modules["psutil._psposix"].os = prox
+        psutil.os = prox            # the front end's own os.kill() (signals) stays inside the stub world
     return psutil, mod
 
 
@@ -617,6 +626,24 @@ def run_row(psutil, mod, row):
         r["cached"] = cached
         r.update(world_info())
         return r
+    if k == "sigseq":
+        # POSIX front end: a signal, the same signal again, then two plain queries on the same object
+        W.reset(row["pid"], row["state"] == "zombie", True, row.get("name", PROCNAME), row.get("scale", 1))
+        p = psutil.Process(row["pid"])
+        p.name()
+        W.signals_ok = True
+        if row["state"] == "zombie":
+            W.state = "zombie"
+        elif row["state"] == "gone":
+            W.state = "gone"
+        steps = []
+        try:
+            for what in ("kill", "kill", "ppid", "is_running"):
+                r = outcome(getattr(p, what))
+                steps.append({"what": what, "cls": r.get("cls"), "val": r.get("val"), "pid": r.get("pid")})
+        finally:
+            W.signals_ok = False
+        return {"cls": "ok", "steps": steps, "log": W.log[:12]}
     if k == "partial":
         # Windows: the first n native accesses of the method answer ERROR_PARTIAL_COPY
         W.reset(row["pid"], False, True, row.get("name", PROCNAME), row.get("scale", 1))
